@@ -42,6 +42,12 @@ REQUIRED_THEOREMS = [
     "SpecVerif.Props.C19.cls_dispatch_runs_sub_twice",
     "SpecVerif.Props.C19.same_outcome_partial",
     "SpecVerif.Props.C19.lenient_synthesized_new",
+    "SpecVerif.Props.C19.hier_first_use",
+    "SpecVerif.Props.C19.hier_any_trigger_order",
+    "SpecVerif.Props.C19.hier_class_eq_eager",
+    "SpecVerif.Props.C19.hier_order_irrelevant",
+    "SpecVerif.Props.C19.hoisted_hints_stale",
+    "SpecVerif.Props.C19.stale_vals_lifts_parent_decl",
 ]
 RULE = (
     "cases = class shape (Attr(...) declarations, dataclasses.field declarations, user-defined methods, own __new__, "
@@ -52,14 +58,24 @@ RULE = (
     "line protocol: every shape x every ordered pair of triggers run one after the other; extra: 2 threads x all "
     "schedules with <= 2 pre-emptions at the labelled protocol statements, 3 threads and pre-emption at every "
     "executed line of spec_classes/* with random-priority schedules; a schedule is non-trivial when a second thread "
-    "performed a protocol step while the first was inside the body of bootstrap"
+    "performed a protocol step while the first was inside the body of bootstrap; "
+    "hierarchies (sequential, modelled): chains of 2-4 decorated classes x per attribute name and class one way of declaring "
+    "it (annotated / attrs_typed= / attrs= / bare class attribute / absent) x class attribute (none, plain, Attr(...), "
+    "field(...), with/without default, factory, repr/compare flags) x attrs_skip x any sequence of first uses (instantiate, "
+    "__spec_class__, __dataclass_fields__, instantiate a plain subclass) of any classes of the chain; systematic: one "
+    "attribute, parent x child, every pair of declarations, first use through the child; non-trivial when a first use had "
+    "to bootstrap a still lazy ancestor as well"
 )
 EXHAUSTIVE = {"quick": False, "thorough": False}
 ASSUMPTIONS = [
     "CPython executes the labelled reads/writes of the class dict atomically (GIL); pre-emption inside one bytecode / inside C "
     "(dict resize, type attribute cache invalidation), free-threaded builds and import-lock interactions are not modelled (partial)",
-    "the Lean model covers one lazily bootstrapped class with one lock; a lazy child of a lazy parent is explored on the real "
-    "code and judged by the oracle only (lock order child -> parent is acyclic)",
+    "the Lean thread-protocol model covers one lazily bootstrapped class with one lock; for a lazy child of a lazy parent the "
+    "ORDER in which bootstrap reads and writes across the hierarchy is modelled sequentially (Model/C19Hier.lean: any chain, any "
+    "sequence of first uses) while thread interleavings of the nested bootstrap are explored on the real code and judged by the "
+    "oracle only (lock order child -> parent is acyclic)",
+    "hierarchy model: single inheritance, every class of the chain decorated, scalar attribute types, no key / frozen / "
+    "do_not_copy / init_overflow_attr, no `_prepare_*` methods",
     "annotation evaluation (typing.get_type_hints) has no side effects on the class",
 ]
 OPEN_STATEMENTS = [
@@ -292,12 +308,56 @@ def _shapes():
         # leaves the parent's `__new__` wrapper installed until the first construction)
         return _childnew("eagerchildnew", bootstrap, True)
 
+    def typedparent(bootstrap):
+        """The child re-manages (`attrs=`) an attribute whose type the lazy parent declared through the decorator only
+        (`attrs_typed=`): the type reaches the parent's `__annotations__` only when the parent is bootstrapped, and
+        the child's `typing.get_type_hints` must see it (C19-r4s1)."""
+        class P:
+            t = 5
+            p: int = 4
+
+        rawp = list(P.__dict__)
+        PP = spec_class(attrs_typed={"t": float}, attrs_skip=[], bootstrap=bootstrap)(P)
+
+        class C(PP):
+            t = 9
+            b: int = Attr(default=2, compare=False)
+
+        raw = list(C.__dict__)
+        CC = spec_class(attrs=["t"], attrs_skip=[], bootstrap=bootstrap)(C)
+        s = Shape("typedparent", CC, CC, raw, {"b": 3}, [], classes=[CC, PP], managed=["b"])
+        s.raws = {CC: raw, PP: rawp}
+        s.bad_kw = [{"t": "not a float"}, {"t": 1.5}, {"b": "not an int"}]
+        return s
+
+    def declparent(bootstrap):
+        """The child re-manages an attribute the lazy parent declares with `Attr(...)` without giving it a value of its
+        own: `getattr(child, attr)` falls through to the parent's class attribute, which the parent's bootstrap
+        replaces by the default."""
+        class P:
+            a: int = Attr(default=1, repr=False)
+            p: int = 4
+
+        rawp = list(P.__dict__)
+        PP = spec_class(bootstrap=bootstrap)(P)
+
+        class C(PP):
+            b: int = 2
+
+        raw = list(C.__dict__)
+        CC = spec_class(attrs=["a"], attrs_skip=[], bootstrap=bootstrap)(C)
+        s = Shape("declparent", CC, CC, raw, {"b": 3}, [], classes=[CC, PP], managed=["b"])
+        s.raws = {CC: raw, PP: rawp}
+        s.bad_kw = [{"a": "not an int"}]
+        return s
+
     return {f.__name__: f for f in (attrs, fields, usermethods, ownnew, inheritednew, specbasenew, plainsub, lazyparent,
-                                    lazychildnew, eagerchildnew)}
+                                    lazychildnew, eagerchildnew, typedparent, declparent)}
 
 
 SINGLE = ["attrs", "fields", "usermethods", "ownnew", "inheritednew", "specbasenew", "plainsub"]
-TWO_CLASS = ["lazyparent", "lazychildnew", "eagerchildnew"]
+TWO_CLASS = ["lazyparent", "lazychildnew", "eagerchildnew", "typedparent", "declparent"]
+READ_PARENT = ["typedparent", "declparent"]  # the child's bootstrap reads what the parent's bootstrap writes
 ALL_SHAPES = SINGLE + TWO_CLASS
 TRIGGERS = ["inst", "meta", "fields"]
 SUB_TRIGGERS = ["inst@subnew1", "inst@subnew0"]  # modelled (`Trigger.instSub fwd`)
@@ -305,7 +365,7 @@ SUB_TRIGGERS = ["inst@subnew1", "inst@subnew0"]  # modelled (`Trigger.instSub fw
 # (`super().__new__(cls, *args, **kwargs)`) raises TypeError on the EAGER class when no class in the MRO defines
 # `__new__` (object.__new__ rejects the arguments) but constructs on the lazy class (the synthesized forwarder
 # swallows them). The shape is generated and reported; matcher `lenient_synthesized_new`.
-NO_NEW_IN_MRO = {"attrs", "fields", "usermethods", "plainsub", "lazyparent"}
+NO_NEW_IN_MRO = {"attrs", "fields", "usermethods", "plainsub", "lazyparent", "typedparent", "declparent"}
 
 MODEL_TRIG = {"inst": "inst", "meta": "meta", "fields": "fields", "inst@subnew1": "sub1", "inst@subnew0": "sub0",
               "meta@sub": "meta", "fields@sub": "fields"}
@@ -610,6 +670,7 @@ def eager_reference(shape_name):
         ref["sub"][variant]["reg1"] = sh.reg[n0:]
     if len(sh.classes) > 1:
         ref["repr_parent"] = repr(sh.classes[-1]())
+    ref["bad_kw"] = _bad_kw(sh)
     # names the eager bootstrap added to the primary class, in order
     added = [n for n in sh.primary.__dict__ if n not in sh.raw and n not in SKIP_NAMES]
     ref["added"] = added
@@ -618,6 +679,17 @@ def eager_reference(shape_name):
     ref["model"] = describe_model(sh, names).rsplit(" n=", 1)[0] + " n=" + fin
     _G[key] = ref
     return ref
+
+
+def _bad_kw(sh):
+    """Constructions the attribute types must reject / accept (type checking is the visible effect of a type)."""
+    out = []
+    for kw in getattr(sh, "bad_kw", []):
+        try:
+            out.append(repr(sh.inst_cls(**kw)))
+        except Exception as e:  # noqa: BLE001 - data
+            out.append("raises " + type(e).__name__)
+    return out
 
 
 def body_line(shape, added):
@@ -813,6 +885,7 @@ def run_case(case, policy=None):
         reg_before = len(sh.reg)
         o2 = sh.inst_cls(**sh.kw)
         later = {"repr": repr(o2), "reg": sh.reg[reg_before:], "rich": {c.__name__: describe_rich(c, raws.get(c, sh.raw)) for c in sh.classes}}
+        later["bad_kw"] = _bad_kw(sh)
     except Exception as e:  # noqa: BLE001
         later = {"error": type(e).__name__ + ": " + str(e)[:100]}
     return {"res": res, "events": tr.events, "final_model": final_model, "final_rich": final_rich, "later": later,
@@ -923,6 +996,8 @@ def judge(case, r):
         for cname, rich in lt["rich"].items():
             if rich != ref["rich"][cname]:
                 viol.append(f"after a later instantiation class {cname} differs from the eager twin")
+        if "bad_kw" in lt and lt["bad_kw"] != ref["bad_kw"]:
+            viol.append(f"constructions {getattr(r['shape'], 'bad_kw', None)} give {lt['bad_kw']}, on the eagerly bootstrapped class {ref['bad_kw']}")
     return viol
 
 
@@ -951,6 +1026,273 @@ def is_modelled(case):
 
 
 # ---------------------------------------------------------------------------
+# hierarchies (Model/C19Hier.lean): a chain of decorated classes, first uses in any order
+# ---------------------------------------------------------------------------
+#
+# case = {"hier": [<class>, ...], "uses": [[k, kind], ...]};  <class> = {"ann": [[name, ty, val]], "typed": [[name, ty, val]],
+# "untyped": [[name, val]], "bare": [[name, val]], "skip": None | [names]}: per attribute name ONE way of declaring it:
+#   ann      annotated in the class body (`x: T = val`)
+#   typed    `attrs_typed={"x": T}` (not annotated), class attribute val
+#   untyped  `attrs=["x"]` (not annotated), class attribute val
+#   bare     neither annotated nor named in the decorator: just a class attribute (overrides an inherited attribute)
+# val = None (no class attribute) | ["P", v] | ["A"|"F", default|None, factory, repr, compare] (Attr(...) / dataclasses.field(...))
+# ty = 0 Any, 1 int, 2 float, 3 Union[int, str] (told apart by whether a str / a float is accepted)
+# uses: first uses of class k: inst (`K()`), meta (`K.__spec_class__`), fields (`K.__dataclass_fields__`),
+#       sub (`S()` for a plain `class S(K): pass`)
+
+HNAMES = ["x", "y"]
+H_USES = ["inst", "meta", "fields", "sub"]
+H_VALS = [None, ["P", 5], ["A", 1, 0, 0, 1], ["A", None, 0, 1, 0], ["A", None, 1, 0, 0], ["F", 2, 0, 1, 0], ["F", None, 1, 0, 1]]
+H_VALS_QUICK = [None, ["P", 5], ["A", 1, 0, 0, 1], ["F", None, 1, 0, 1]]
+
+
+def _h_types():
+    import typing
+
+    return {0: typing.Any, 1: int, 2: float, 3: typing.Union[int, str]}
+
+
+def _h_ty_tok(t):
+    for k, v in _h_types().items():
+        if t is v or t == v:
+            return str(k)
+    return "?" + repr(t)
+
+
+def _h_factory():
+    return 4
+
+
+def _h_value(v):
+    from spec_classes import Attr
+    from spec_classes.types import MISSING
+
+    if v[0] == "P":
+        return v[1]
+    k, d, f, r, c = v
+    if k == "A":
+        if f:
+            return Attr(default_factory=_h_factory, repr=bool(r), compare=bool(c))
+        return Attr(default=MISSING if d is None else d, repr=bool(r), compare=bool(c))
+    if f:
+        return dataclasses.field(default_factory=_h_factory, repr=bool(r), compare=bool(c))
+    return dataclasses.field(default=dataclasses.MISSING if d is None else d, repr=bool(r), compare=bool(c))
+
+
+def _h_entries(b):
+    return [(n, v) for n, _, v in b["ann"]] + [(n, v) for n, _, v in b["typed"]] + [tuple(x) for x in b["untyped"]] \
+        + [tuple(x) for x in b["bare"]]
+
+
+def h_build(chain, bootstrap):
+    """The chain of classes K0 <- K1 <- ..., every class decorated (lazily / eagerly)."""
+    from spec_classes import spec_class
+
+    ty = _h_types()
+    classes = []
+    for k, b in enumerate(chain):
+        ns = {}
+        if b["ann"]:
+            ns["__annotations__"] = {n: ty[t] for n, t, _ in b["ann"]}
+        for n, v in _h_entries(b):
+            if v is not None:
+                ns[n] = _h_value(v)
+        C = type(f"K{k}", (classes[-1],) if classes else (), ns)
+        kw = {}
+        if b["untyped"]:
+            kw["attrs"] = [n for n, _ in b["untyped"]]
+        if b["typed"]:
+            kw["attrs_typed"] = {n: ty[t] for n, t, _ in b["typed"]}
+        if b["skip"] is not None:
+            kw["attrs_skip"] = list(b["skip"])
+        classes.append(spec_class(bootstrap=bootstrap, **kw)(C))
+    return classes
+
+
+def h_describe(classes):
+    """The hierarchy in the model's vocabulary (no descriptor is triggered)."""
+    from spec_classes.spec_class import SpecClassMetadata
+
+    out = []
+    for C in classes:
+        d = C.__dict__
+        md = d.get("__spec_class__")
+        if isinstance(md, SpecClassMetadata):
+            m = "[" + ",".join(
+                f"{_h_name(n)}:{_h_ty_tok(sp.type)}:{_tok(sp.default)}:{int(bool(sp.default_factory))}:{int(bool(sp.repr))}:"
+                f"{int(bool(sp.compare))}:{classes.index(sp.owner) if sp.owner in classes else '?'}" for n, sp in md.attrs.items()) + "]"
+        else:
+            m = "_"
+        a = ",".join(f"{_h_name(n)}:{_h_ty_tok(t)}" for n, t in (d.get("__annotations__") or {}).items())
+        dd = ",".join(f"{i}={_h_vtok(d[n])}" for i, n in enumerate(HNAMES) if n in d)
+        h = ",".join(str(_h_name(n[5:])) for n in d if n.startswith("with_") and n[5:] in HNAMES)
+        out.append(f"m={m} a=[{a}] d=[{dd}] h=[{h}]")
+    return " | ".join(out)
+
+
+def _h_name(n):
+    return HNAMES.index(n) if n in HNAMES else n
+
+
+def _h_vtok(v):
+    from spec_classes.types import Attr
+
+    return "D" if isinstance(v, (Attr, dataclasses.Field)) else _tok(v)
+
+
+def h_use(classes, k, kind, subs):
+    """One first use; returns what the user gets (repr / sorted names) or the exception class."""
+    C = classes[k]
+    try:
+        if kind == "inst":
+            return "ok:" + repr(C())
+        if kind == "sub":
+            if k not in subs:
+                subs[k] = type(f"S{k}", (C,), {})
+            return "ok:" + repr(subs[k]())
+        if kind == "meta":
+            return "ok:" + ",".join(C.__spec_class__.attrs)
+        return "ok:" + ",".join(C.__dataclass_fields__)
+    except Exception as e:  # noqa: BLE001 - data
+        return "raised:" + type(e).__name__
+
+
+def h_probe(C, deep=True):
+    """What a user of a bootstrapped class can tell: rich description + which values the constructor and the
+    generated `with_<attr>` accept for every attribute (type checking is the visible effect of an attribute's type)."""
+    out = {"rich": describe_rich(C, ())}
+    out["rich"].pop("methods", None)
+    out["rich"]["class_attrs"] = {a: _h_vtok(C.__dict__[a]) if a in C.__dict__ else "<absent>" for a in out["rich"]["class_attrs"]}
+    out["methods"] = sorted(n for n in C.__dict__ if n.startswith(("with_", "transform_", "reset_", "update_")))
+    beh = {}
+    for a in sorted(C.__dict__["__spec_class__"].attrs):
+        for v in ("s", 1.5, 7):
+            try:
+                beh[f"ctor {a}={v!r}"] = repr(C(**{a: v}))
+            except Exception as e:  # noqa: BLE001
+                beh[f"ctor {a}={v!r}"] = "raises " + type(e).__name__
+            if not deep:  # (building a generated method on first access is the expensive part)
+                continue
+            try:
+                beh[f"with_{a}({v!r})"] = repr(getattr(C(), f"with_{a}")(v))
+            except Exception as e:  # noqa: BLE001
+                beh[f"with_{a}({v!r})"] = "raises " + type(e).__name__
+    out["behaviour"] = beh
+    return out
+
+
+def h_run(case):
+    """Lazy chain: the uses in order (describing the hierarchy after each); eager twin: the same uses."""
+    from spec_classes.spec_class import SpecClassMetadata
+
+    chain, uses = case["hier"], case["uses"]
+    lazy = h_build(chain, False)
+    states, got, subs, booted_by = [], [], {}, []
+    for k, kind in uses:
+        n0 = sum(isinstance(C.__dict__.get("__spec_class__"), SpecClassMetadata) for C in lazy)
+        got.append(h_use(lazy, k, kind, subs))
+        states.append(h_describe(lazy))
+        booted_by.append(sum(isinstance(C.__dict__.get("__spec_class__"), SpecClassMetadata) for C in lazy) - n0)
+    eager = h_build(chain, True)
+    eager_desc = h_describe(eager)
+    esubs = {}
+    want = [h_use(eager, k, kind, esubs) for k, kind in uses]
+    viol = []
+    for (k, kind), g, w in zip(uses, got, want):
+        if g != w:
+            viol.append(f"use {kind} of K{k}: lazily bootstrapped hierarchy gives {g}, eagerly bootstrapped one {w}")
+    top = max(k for k, _ in uses)
+    for k in range(top + 1):
+        L, E = lazy[k], eager[k]
+        if not isinstance(L.__dict__.get("__spec_class__"), SpecClassMetadata):
+            viol.append(f"K{k} (an ancestor of / a class that was used) is not bootstrapped")
+            continue
+        pl, pe = h_probe(L, k == top), h_probe(E, k == top)
+        for sect in pe:
+            if pl[sect] != pe[sect]:
+                ks = sorted(x for x in set(pl[sect]) | set(pe[sect]) if pl[sect].get(x) != pe[sect].get(x)) \
+                    if isinstance(pe[sect], dict) else [sect]
+                viol.append(f"K{k} differs from its eagerly bootstrapped twin in {sect} {ks}: "
+                            f"{json.dumps({x: pl[sect].get(x) for x in ks} if isinstance(pe[sect], dict) else pl[sect])[:300]} vs "
+                            f"{json.dumps({x: pe[sect].get(x) for x in ks} if isinstance(pe[sect], dict) else pe[sect])[:300]}")
+    # (the probes above run after the description: they do not write to the classes)
+    return {"states": states, "eager": eager_desc, "viol": viol, "booted_by": booted_by}
+
+
+def _h_val_line(n, v):
+    if v[0] == "P":
+        return f"{n} P {'_' if v[1] is None else v[1]} 0 1 1"
+    k, d, f, r, c = v
+    return f"{n} {k} {'_' if (d is None or f) else d} {f} {r} {c}"
+
+
+def h_chain_line(chain):
+    out = []
+    for b in chain:
+        ents = [(HNAMES.index(n), v) for n, v in _h_entries(b) if v is not None]
+        attrs = [(HNAMES.index(n), 0) for n, _ in b["untyped"]] + [(HNAMES.index(n), t) for n, t, _ in b["typed"]]
+        t = ["A", str(len(b["ann"]))] + [f"{HNAMES.index(n)} {t}" for n, t, _ in b["ann"]]
+        t += ["D", str(len(ents))] + [_h_val_line(n, v) for n, v in ents]
+        t += ["T", str(len(attrs))] + [f"{n} {ty}" for n, ty in attrs]
+        t += ["S", "_"] if b["skip"] is None else ["S", str(len(b["skip"]))] + [str(HNAMES.index(n)) for n in b["skip"]]
+        out.append(" ".join(t))
+    return " / ".join(out)
+
+
+def h_modes(types, vals):
+    out = [("absent",)]
+    for t in types:
+        out += [("ann", t, v) for v in vals] + [("typed", t, v) for v in vals]
+    out += [("untyped", v) for v in vals] + [("bare", v) for v in vals if v is not None]
+    return out
+
+
+def h_body(modes_by_name, skip=None):
+    b = {"ann": [], "typed": [], "untyped": [], "bare": [], "skip": skip}
+    for name, m in modes_by_name.items():
+        if m[0] == "ann":
+            b["ann"].append([name, m[1], m[2]])
+        elif m[0] == "typed":
+            b["typed"].append([name, m[1], m[2]])
+        elif m[0] == "untyped":
+            b["untyped"].append([name, m[1]])
+        elif m[0] == "bare":
+            b["bare"].append([name, m[1]])
+    return b
+
+
+def h_random_case(rng, origin):
+    ms = h_modes((1, 2, 3), H_VALS)
+    depth = rng.choice([2, 2, 3, 3, 4])
+    names = HNAMES if rng.random() < 0.7 else HNAMES[:1]
+    chain = []
+    for _ in range(depth):
+        # bias towards the interesting modes: decorator-declared / overridden / absent
+        chain.append(h_body({n: rng.choice(ms) if rng.random() < 0.6 else rng.choice([m for m in ms if m[0] != "ann"]) for n in names},
+                            skip=rng.choice([None, None, None, [], ["x"]])))
+    uses = [[rng.randrange(depth), rng.choice(H_USES)] for _ in range(rng.randint(1, 3))]
+    if rng.random() < 0.5:
+        uses[0][0] = depth - 1  # subclass first
+    return {"hier": chain, "uses": uses, "origin": origin}
+
+
+def h_cases(tier, rng):
+    # systematic: ONE attribute, parent x child, every way of declaring it in either class, first use through the child
+    quick = tier == "quick"
+    ms = h_modes((1, 2) if quick else (1, 2, 3), H_VALS_QUICK if quick else H_VALS)
+    i = 0
+    for pm in ms:
+        for cm in ms:
+            i += 1
+            kind = H_USES[i % len(H_USES)]
+            yield {"hier": [h_body({"x": pm}), h_body({"x": cm})], "uses": [[1, kind]], "origin": "hier-systematic"}
+            if not quick:
+                yield {"hier": [h_body({"x": pm}), h_body({"x": cm})], "uses": [[0, kind], [1, "inst"]], "origin": "hier-systematic"}
+    for _ in range(250 if quick else 8000):
+        yield h_random_case(rng, "hier-random")
+
+
+# ---------------------------------------------------------------------------
 # line protocol (sequential and fixed-schedule cases)
 # ---------------------------------------------------------------------------
 
@@ -962,12 +1304,18 @@ def _run_cached(case):
     if key not in _cache:
         if len(_cache) > 5000:
             _cache.clear()
-        with patched_locks():
-            _cache[key] = run_case(case)
+        if "hier" in case:
+            _cache[key] = h_run(case)
+        else:
+            with patched_locks():
+                _cache[key] = run_case(case)
     return _cache[key]
 
 
 def model_lines(case):
+    if "hier" in case:
+        line = h_chain_line(case["hier"])
+        return [f"hier {line} | {' '.join(str(k) for k, _ in case['uses'])}", f"heager {line}"]
     r = _run_cached(case)
     if not is_modelled(case):
         return [f"eager {body_line(r['shape'], r['ref']['added'])}"] if case["shape"] in SINGLE else ["eager D 0 M 0 U 0 N 0 0"]
@@ -981,22 +1329,35 @@ def eager_string(case, r):
 
 def real_lines(case):
     r = _run_cached(case)
+    if "hier" in case:
+        return [" ;; ".join(r["states"]), r["eager"]]
     if not is_modelled(case):
         return [eager_string(case, r)] if case["shape"] in SINGLE else ["m=[] f=1 d=[] g=[] n=synthesized"]
     return [real_string(case, r), eager_string(case, r)]
 
 
 def oracle(case):
+    if "hier" in case:
+        return list(_run_cached(case)["viol"])
     return judge(case, _run_cached(case))
 
 
 def nontrivial(case, real):
     r = _run_cached(case)
+    if "hier" in case:
+        # non-trivial: a first use that had to bootstrap a still lazy ancestor as well
+        return [("hier", json.dumps(case["hier"]), tuple(map(tuple, case["uses"])))] if any(n > 1 for n in r["booted_by"]) else []
     return [(case["shape"], tuple(case["triggers"]), tuple(r["events"]))]
 
 
 def tags(case, real):
     r = _run_cached(case)
+    if "hier" in case:
+        t = [f"shape:hier-depth{len(case['hier'])}", f"origin:{case.get('origin', 'corpus')}", "modelled:True"]
+        t += [f"use:{kind}@K{k}{'(subclass first)' if n > 1 else ''}" for (k, kind), n in zip(case["uses"], r["booted_by"])]
+        for b in case["hier"][1:]:
+            t += [f"child-declares:{m}" for m in ("ann", "typed", "untyped", "bare") if b[m]]
+        return t
     t = [f"shape:{case['shape']}", f"threads:{len(case['triggers'])}", f"origin:{case.get('origin', 'corpus')}"]
     t += [f"trigger:{x}" for x in case["triggers"]]
     t.append(f"modelled:{is_modelled(case)}")
@@ -1007,7 +1368,7 @@ def tags(case, real):
 def trigger_sets(shape, pairs=False):
     """First-use programs of a shape; `pairs`: the ones combined into ordered pairs (the two-level subclass chain is
     used alone and in the random streams only)."""
-    trs = list(TRIGGERS) + SUB_TRIGGERS
+    trs = list(TRIGGERS) + ([] if (pairs and shape in READ_PARENT) else SUB_TRIGGERS)
     if not pairs:
         trs += ["inst@subnew2"]
     if shape == "plainsub":
@@ -1020,10 +1381,14 @@ def trigger_sets(shape, pairs=False):
 def gen_cases(tier, rng):
     if tier == "search":
         while True:
+            if rng.random() < 0.5:
+                yield h_random_case(rng, "hier-search")
+                continue
             shape = rng.choice(ALL_SHAPES)
             trs = [rng.choice(trigger_sets(shape)) for _ in range(rng.randint(1, 3))]
             yield {"shape": shape, "triggers": trs, "schedule": [rng.randrange(len(trs)) for _ in range(rng.randint(0, 120))]}
         return
+    yield from h_cases(tier, rng)
     # every shape x every first trigger alone, then every ordered pair run one after the other
     for shape in ALL_SHAPES:
         trs = trigger_sets(shape)
@@ -1044,6 +1409,19 @@ def gen_cases(tier, rng):
 
 
 def shrink(case, at=None):
+    if "hier" in case:
+        chain, uses = case["hier"], case["uses"]
+        for i in range(len(uses)):
+            if len(uses) > 1:
+                yield {**case, "uses": uses[:i] + uses[i + 1:]}
+        if max(k for k, _ in uses) < len(chain) - 1:
+            yield {**case, "hier": chain[:-1]}
+        for ci, b in enumerate(chain):
+            for sect in ("ann", "typed", "untyped", "bare"):
+                for j in range(len(b[sect])):
+                    nb = {**b, sect: b[sect][:j] + b[sect][j + 1:]}
+                    yield {**case, "hier": chain[:ci] + [nb] + chain[ci + 1:]}
+        return
     sc = case.get("schedule") or []
     for k in range(len(sc)):
         yield {**case, "schedule": sc[:k]}
@@ -1094,6 +1472,9 @@ def explore_sweep(tier, rng):
                 configs.append(("inheritednew", ["inst@subnew1", "inst@subnew0"], 2, False))
                 configs.append(("lazychildnew", ["inst", "inst@parent"], 1, False))
                 configs.append(("eagerchildnew", ["inst", "inst"], 1, False))
+                # the child's bootstrap reads what the lazy parent's bootstrap writes (annotations / consumed declarations)
+                configs.append(("typedparent", ["inst", "inst"], 1, False))
+                configs.append(("declparent", ["meta", "inst@parent"], 1, False))
             else:
                 for shape in SINGLE:
                     for trs in (["inst", "inst"], ["inst", "meta"], ["fields", "inst"], ["meta", "fields"]):
@@ -1117,6 +1498,11 @@ def explore_sweep(tier, rng):
                     for trs in (["inst", "inst@parent"], ["inst", "inst"], ["meta@parent", "inst"], ["inst@subnew0", "inst"]):
                         configs.append((shape, trs, 2, False))
                 configs.append(("lazychildnew", ["inst", "inst"], 1, True))
+                for shape in READ_PARENT:
+                    for trs in (["inst", "inst"], ["inst", "inst@parent"], ["meta@parent", "inst"], ["fields", "meta"], ["inst@subnew0", "inst"]):
+                        configs.append((shape, trs, 2, False))
+                    configs.append((shape, ["inst", "inst", "meta@parent"], 1, False))
+                    configs.append((shape, ["inst", "inst@parent"], 1, True))
             share = budget * 0.75 / len(configs)
             for shape, trs, bound, every in configs:
                 case = {"shape": shape, "triggers": trs, "every_line": every}
@@ -1131,7 +1517,7 @@ def explore_sweep(tier, rng):
                 complete = True
                 for dec, used, res in S.explore(run_res, bound):
                     record(case, last["r"], f"explore<={bound}")
-                    if time.time() - t0 > max(share, 1.5):
+                    if time.time() - t0 > max(share, 1.25):
                         complete = False
                         break
                 info["by_config"][f"{shape}/{'+'.join(trs)}/bound{bound}{'/every-line' if every else ''}"] = {
@@ -1213,7 +1599,7 @@ def _lenient_synth(case, violation):
 KNOWN_MATCHERS = {"early_publish": _early_publish, "lenient_synthesized_new": _lenient_synth}
 
 MANIFEST_ENTRY = {
-    "level_text": "Lean 4 proof, for any class body, any number of threads, any assignment of first-use programs (instantiate, also through a subclass / read __spec_class__ / read __dataclass_fields__) and any schedule, that the lazy-bootstrap protocol of spec_class.__call__ (placeholder, per-class re-entrant lock, re-check under the lock, self-removing __new__ wrapper) enters the body of bootstrap at most once, that while it runs the class is exactly the sequential bootstrap's intermediate state, that when all started threads have finished the class is the sequential eager result and every instantiating thread has observed exactly the eager class, that every finished program (also one that constructs through a subclass with its own __new__) has run exactly the __new__ bodies the eager class runs for it, once each, in order and with the same arguments, and at no moment more than a prefix of them, and that a single thread with any trigger terminates with the eager result; the pre-fix protocol is kept as a Legacy counter-model with a decide-checked racing schedule. Tied to /repo on every run: protocol statements are located by AST pattern, real threads are run under a deterministic scheduler (all schedules with <= 2 pre-emptions at the protocol statements for 2 threads, 3 threads and pre-emption at every executed library line with random-priority schedules), and label sequence, per-thread observation and final class are compared with the model on the same schedule and with the eagerly bootstrapped twin. PARTIAL: (1) the full no-partial-view statement is false for threads that only read the metadata (KF-C19-early-publish, decide-checked witness); (2) pre-emption inside a bytecode / inside C and free-threaded builds are not expressible; (3) a lazy child of a lazy parent is explored on the real code against the eager twin but not replayed on the single-class model.",
+    "level_text": "Lean 4 proof, for any class body, any number of threads, any assignment of first-use programs (instantiate, also through a subclass / read __spec_class__ / read __dataclass_fields__) and any schedule, that the lazy-bootstrap protocol of spec_class.__call__ (placeholder, per-class re-entrant lock, re-check under the lock, self-removing __new__ wrapper) enters the body of bootstrap at most once, that while it runs the class is exactly the sequential bootstrap's intermediate state, that when all started threads have finished the class is the sequential eager result and every instantiating thread has observed exactly the eager class, that every finished program (also one that constructs through a subclass with its own __new__) has run exactly the __new__ bodies the eager class runs for it, once each, in order and with the same arguments, and at no moment more than a prefix of them, and that a single thread with any trigger terminates with the eager result; the pre-fix protocol is kept as a Legacy counter-model with a decide-checked racing schedule. Tied to /repo on every run: protocol statements are located by AST pattern, real threads are run under a deterministic scheduler (all schedules with <= 2 pre-emptions at the protocol statements for 2 threads, 3 threads and pre-emption at every executed library line with random-priority schedules), and label sequence, per-thread observation and final class are compared with the model on the same schedule and with the eagerly bootstrapped twin. PARTIAL: (1) the full no-partial-view statement is false for threads that only read the metadata (KF-C19-early-publish, decide-checked witness); (2) pre-emption inside a bytecode / inside C and free-threaded builds are not expressible; (3) thread interleavings of a lazy child of a lazy parent are explored on the real code against the eager twin but not replayed on the single-class protocol model. HIERARCHIES (sequential): Lean proof, for any single-inheritance chain of decorated classes (any annotations, attrs= / attrs_typed= / attrs_skip=, Attr(...)/field(...)/plain class attributes, overrides of inherited attributes) and any sequence of first uses of any of its classes, that bootstrap as modelled (parents first, then the reads of the ancestors' __annotations__ / class attributes / metadata, then the own writes) leaves every bootstrapped class exactly as the all-eager hierarchy has it and everything else untouched, whichever class was used first; with decide-checked counter-models in which the type hints / the class attribute values are read before the parents are bootstrapped. Tied to /repo: every generated hierarchy is built lazily on the real code, the uses are performed, and every class (metadata with types/defaults/flags/owners, own __annotations__, own class attributes, registered helpers) is compared with the model after every use and with the eagerly decorated twin (also constructor / with_<attr> type checking).",
     "level_note": "Trusted: Lean kernel; axioms propext/Classical.choice/Quot.sound only; the hand-written protocol model; harness/sched.py; the AST patterns that locate the protocol statements (the check reports a broken correspondence if any is not found); CPython's per-bytecode atomicity of class-dict reads/writes.",
     "technique": "Lean 4 inductive invariant over a pc-machine per thread and arbitrary interleavings; deterministic schedule exploration of real threads with label-sequence/observation correspondence and an eager-twin oracle",
 }
